@@ -71,6 +71,11 @@ func c07ExprCatalogue() []c07ExprErr {
 		c07ExprErr{class: "parser", pre: "1 < ", bad: "<= 2", msg: "unexpected token \"<=\" while parsing", abs: true},
 		c07ExprErr{class: "parser", pre: "github.sha", bad: "(", post: "1)", msg: "parser did not reach end of input", abs: true},
 	)
+	// "}}" inside a condition that is not enclosed in ${{ }}
+	out = append(out,
+		c07ExprErr{class: "parser", pre: "true ", bad: "}} garbage", msg: "unexpected \"}}\" in the middle of \"if\" condition", abs: true, tag: "bareonly"},
+		c07ExprErr{class: "parser", pre: "github.sha == github.sha", bad: "}}", post: " || x", msg: "unexpected \"}}\" in the middle of \"if\" condition", abs: true, tag: "bareonly"},
+	)
 	// semantic: anchor = first token of the offending sub-expression
 	out = append(out,
 		c07ExprErr{class: "sema-var", bad: "nope", msg: "undefined variable \"nope\"", abs: true, wrap: true},
@@ -109,11 +114,12 @@ func c07ExprCatalogue() []c07ExprErr {
 		c07ExprErr{class: "untrusted", pre: "github.sha == ", bad: "github.event.issue.body", msg: "\"github.event.issue.body\" is potentially untrusted", abs: true, tag: "script"},
 		c07ExprErr{class: "untrusted", pre: "(", bad: "github.event.comment.body", post: ")", msg: "\"github.event.comment.body\" is potentially untrusted", abs: true, tag: "script"},
 	)
-	// object evaluated in a template: reported at the placeholder ("${{"), which is neither token,
-	// key nor value, so only the shift relation is checked
+	// object evaluated in a template: the diagnostic is about the placeholder as a whole and is
+	// reported at its first character, the "$" of "${{" (the convention on plain scalars); the
+	// same position is required in every quoting style and holder
 	out = append(out,
-		c07ExprErr{class: "template", bad: "github", msg: "object, array, and null values should not be evaluated in template", abs: false, tag: "template"},
-		c07ExprErr{class: "template", bad: "null", msg: "object, array, and null values should not be evaluated in template", abs: false, tag: "template"},
+		c07ExprErr{class: "template", bad: "github", msg: "object, array, and null values should not be evaluated in template", abs: true, tag: "template"},
+		c07ExprErr{class: "template", bad: "null", msg: "object, array, and null values should not be evaluated in template", abs: true, tag: "template"},
 	)
 	return out
 }
